@@ -3,12 +3,14 @@ package main
 // C11 — implementation-side oracle (S) for family "hist": the property stated directly on
 // the real psetv2 packet after the creator and after every role operation.
 //
-// clauses (site = <operation>.<clause>):
+// sites: <operation>.<clause> for the creator ("new"), the multi-part operations and the finalizers;
+// the single-field updater methods share the site prefix "setter" and name the method in the detail.
+// clauses:
 //   counts    Global.InputCount/OutputCount equal len(Inputs)/len(Outputs)
 //   dup       no two inputs spend the same outpoint
 //   modin     no input added while the inputs-modifiable flag was clear (modout: outputs)
 //   locktime  Locktime() is the largest required locktime of the kind BIP-370 selects, else the fallback
-//   reparse   ToBase64 -> NewPsetFromBase64 -> ToBase64 gives the same string
+//   reparse   ToBase64 -> NewPsetFromBase64 -> ToBase64 gives the same string and the packet read back is the packet written
 //   atomic    a multi-part operation that returned an error left ToBase64 unchanged
 //   frozen    a multi-part operation did not alter an input that was already finalized
 //
@@ -37,11 +39,7 @@ func c11LoadKnown() {
 		return
 	}
 	c11KnownLoaded = true
-	path := "/verif/known_findings.txt"
-	if e := os.Getenv("C11_KNOWN"); e != "" {
-		path = e
-	}
-	f, err := os.Open(path)
+	f, err := os.Open("/verif/known_findings.txt")
 	if err != nil {
 		return
 	}
@@ -199,6 +197,17 @@ func diffDetail(before, after string) string {
 	return strings.Join(l, "+")
 }
 
+var setterOps = map[string]bool{"setmod": true, "nwutxo": true, "wutxo": true, "redeem": true, "wscript": true, "bip32": true,
+	"sighash": true, "utxorp": true, "expasset": true, "expvalue": true, "tapik": true, "tapmr": true, "tapleaf": true,
+	"tapbip32": true, "obip32": true, "oredeem": true, "owscript": true}
+
+func siteOf(op string) string {
+	if setterOps[op] {
+		return "setter"
+	}
+	return op
+}
+
 type stateFlags struct{ counts, dup, locktime, reparse bool } // true = clause holds
 
 func stateClauses(p *psetv2.Pset) (stateFlags, string) {
@@ -230,8 +239,15 @@ func checkHist(t *Toks) string {
 		return s
 	}
 	steps := 0
-	res := execHist(t, pre, func(k int, op, outcome string, before *snapshot, p *psetv2.Pset) {
+	res := execHist(t, pre, func(k int, opName, outcome string, before *snapshot, p *psetv2.Pset) {
 		steps++
+		op := siteOf(opName)
+		add := func(site, detail string) {
+			if op == "setter" && !strings.HasSuffix(site, ".reparse") {
+				detail = opName + ":" + detail
+			}
+			add(site, detail)
+		}
 		cur, rtDetail := stateClauses(p)
 		first := k == 0
 		if !cur.counts && (first || prev.counts) {
@@ -253,7 +269,17 @@ func checkHist(t *Toks) string {
 			add(op+".locktime", fmt.Sprintf("%s:got_%d_want_%d", shape, p.Locktime(), specLocktime(p)))
 		}
 		if !cur.reparse && (first || prev.reparse) {
-			add(op+".reparse", rtDetail)
+			// outcome of the operation, operation, then what the parser said
+			dn := opName
+			switch opName { // the three derivation setters share a detail prefix
+			case "bip32":
+				dn = "bip32.in"
+			case "obip32":
+				dn = "bip32.out"
+			case "tapbip32":
+				dn = "bip32.tap"
+			}
+			add(op+".reparse", outcome+":"+dn+":"+rtDetail)
 		}
 		prev = cur
 		if before == nil {
@@ -265,7 +291,7 @@ func checkHist(t *Toks) string {
 		if !before.outMod && len(p.Outputs) > before.nout {
 			add(op+".modout", "output-added-while-locked")
 		}
-		if multiPart[op] {
+		if multiPart[opName] {
 			if outcome == "err" {
 				after, _ := p.ToBase64()
 				if after != before.b64 {
